@@ -17,7 +17,11 @@ Where that fails only because pytz's table differs from the full IANA data
 (sub-minute historical offsets, instants before 1901-12-13 20:45:52 UTC or after
 2037) the case is counted as `pytz_table_deviation:*` (reported, see
 notes/C11.md), not as a violation of spowtd; a non-existent (skipped) local
-time is outside the property's quantifier and is counted, not compared.
+time is outside the property's quantifier: the oracle only counts it, the
+correspondence still compares it (model: localize(dt - 6 h) + 6 h, as pytz).
+Texts that strptime accepts although they are not in the canonical form
+(one-digit fields, runs of blanks) are outside the model; the oracle requires
+the same epoch as for the canonical spelling of the same fields.
 
 Command level: `spowtd load` with the files written in a non-UTC zone, valid
 and malformed (the three refusal kinds of the property, duplicates, a text
@@ -269,6 +273,39 @@ def zone_texts(rng, z, n_trans, n_random, n_lmt, n_bad):
     return [t for t in texts if t is not None]
 
 
+def noncanonical_variants(rng, text):
+    """Spellings of the same fields that strptime('%Y-%m-%d %H:%M:%S') also accepts."""
+    m = re.fullmatch(r'(\d{4})-(\d\d)-(\d\d) (\d\d):(\d\d):(\d\d)', text)
+    if not m:
+        return []
+    y, mo, d, h, mi, sec = m.groups()
+    short = '%s-%d-%d %d:%d:%d' % (y, int(mo), int(d), int(h), int(mi), int(sec))
+    out = [short, '%s-%s-%s   %s:%s:%s' % (y, mo, d, h, mi, sec), '%s-%s-%s\t%s:%s:%s' % (y, mo, d, h, mi, sec)]
+    return [t for t in out if t != text][:1 + rng.randrange(2)]
+
+
+def check_noncanonical(zones_texts, out, rng, per_zone):
+    """Oracle only: a non-canonical spelling that is accepted must give the epoch of the canonical one."""
+    import pytz
+    for z, texts in zones_texts:
+        tz = pytz.timezone(z.name)
+        valid = [t for t in texts if canonical_valid(t)]
+        rng.shuffle(valid)
+        for text in valid[:per_zone]:
+            ref = impl_stamp(tz, text)
+            for var in noncanonical_variants(rng, text):
+                r = impl_stamp(tz, var)
+                out.evaluations += 1
+                if r[0] == 'err':
+                    out.count('FL:noncanonical_refused')
+                    continue
+                out.count('FL:noncanonical_accepted')
+                if ref[0] != 'ok' or r[1] != ref[1]:
+                    out.violation('oracle', 'the spelling %r of the timestamp %r in zone %s is stored as %r, the '
+                                  'canonical spelling as %r' % (var, text, z.name, r[1], ref[1:]),
+                                  case=dict(level='NC', zone=z.name, text=text, variant=var))
+
+
 # ------------------------------------------------------------- FL check
 
 def impl_stamp(tz, text):
@@ -412,9 +449,7 @@ def check_fl(zones_texts, out, label, shard_zones=4):
                         exp = 'Skipped'     # never equal to a model answer that is compared
                     items.append('(%s, %s)' % (C.cstring(text), exp))
                 f.write('Definition cases%d : list (string * stamped) :=\n [ %s ].\n' % (j, '\n ; '.join(items)))
-                f.write('Eval vm_compute in (bad_indices (stamp_case_ok z%d) cases%d).\n' % (j, j))
-                f.write('Eval vm_compute in (bad_indices (fun c => match stamp z%d (fst c) with Skipped => false '
-                        '| _ => true end) cases%d).\n' % (j, j))
+                f.write('Eval vm_compute in (stamp_codes z%d cases%d).\n' % (j, j))
         jobs.append((path, group))
     import concurrent.futures as cf
     with cf.ThreadPoolExecutor(max_workers=16) as ex:
@@ -422,13 +457,20 @@ def check_fl(zones_texts, out, label, shard_zones=4):
         for fut in cf.as_completed(futs):
             path, group = futs[fut]
             rc, text_out, _ = fut.result()
-            lists = re.findall(r'=\s*(\[[^\]]*\]|nil)\s*:\s*list nat', text_out, re.S)
-            if rc != 0 or len(lists) != 2 * len(group):
+            lists = re.findall(r'=\s*(\[[^\]]*\]|nil)\s*:\s*list \(nat \* nat\)', text_out, re.S)
+            if rc != 0 or len(lists) != len(group):
                 out.corr_errors.append((path, text_out[-2000:]))
                 continue
             for j, (z, texts, results) in enumerate(group):
-                bad = [int(x) for x in re.findall(r'\d+', lists[2 * j])]
-                skipped = [int(x) for x in re.findall(r'\d+', lists[2 * j + 1])]
+                codes = {int(i): int(k) for i, k in re.findall(r'\(\s*(\d+)(?:%nat)?,\s*(\d+)(?:%nat)?\s*\)', lists[j])}
+                inner = lists[j].strip()
+                n_items = 0 if inner in ('nil', '[]') or not inner.strip('[] \n') else inner.count(';') + 1
+                if n_items != len(codes) or any(i >= len(texts) or k > 6 for i, k in codes.items()):
+                    out.corr_errors.append((path, 'cannot read the case codes of zone %s: %s' % (z.name, inner[:500])))
+                    continue
+                bad = sorted(i for i, k in codes.items() if k >= 4)
+                skipped = sorted(i for i, k in codes.items() if k in (1, 5))
+                unmodelled = sorted(i for i, k in codes.items() if k == 3)
                 for i in bad:
                     r = results[i]
                     what = ('epoch %d' % r[1]) if r[0] == 'ok' else '%s: %s' % (type(r[1]).__name__, r[1])
@@ -438,11 +480,18 @@ def check_fl(zones_texts, out, label, shard_zones=4):
                                      z.candidates(naive_secs(texts[i])) if canonical_valid(texts[i]) else 'n/a'),
                                   case=dict(level='FL', zone=z.name, text=texts[i]))
                 for i in skipped:
-                    out.count('FL:model_says_skipped')
+                    out.count('FL:model_says_nonexistent(compared: localize(dt-6h)+6h)')
                     if canonical_valid(texts[i]) and z.candidates(naive_secs(texts[i])):
                         out.violation('corr', 'model calls %r in %s a skipped local time but the table has '
                                       'candidates' % (texts[i], z.name),
                                       case=dict(level='FL', zone=z.name, text=texts[i]))
+                for i in unmodelled:
+                    out.count('FL:model_out_of_fuel(not compared)')
+                not_existing = set(skipped) | set(unmodelled)
+                for i in range(len(texts)):
+                    if i not in not_existing and canonical_valid(texts[i]) and not z.candidates(naive_secs(texts[i])):
+                        out.violation('corr', 'model finds an instant for %r in %s but the table has no candidate'
+                                      % (texts[i], z.name), case=dict(level='FL', zone=z.name, text=texts[i]))
 
 
 # ------------------------------------------------------------- CL: `spowtd load` in a zone
@@ -596,12 +645,18 @@ def check_cl(cases, out, label, zone_cache):
                     out.violation('oracle', 'load was refused (%s) but left rows in %s'
                                   % (type(res['exc']).__name__, filled), case=pub)
         by_zone.setdefault(case['tz'], []).append((case, res, cl_case_str(case, res)))
+    def coq_zone(name):
+        items = by_zone[name]
+        pre = PRE + 'Definition z : zone := %s.\n' % zone_cache(name).coq()
+        return C.run_case_shards(PROP, label + '_' + name.replace('/', '_').replace('+', 'p'), pre,
+                                 'load_text_case', 'load_text_case_ok z', [s for _, _, s in items], shard=8)
+    for name in by_zone:
+        zone_cache(name)
+    import concurrent.futures as cf
+    with cf.ThreadPoolExecutor(max_workers=8) as ex:
+        coq_results = dict(zip(sorted(by_zone), ex.map(coq_zone, sorted(by_zone))))
     for name, items in sorted(by_zone.items()):
-        z = zone_cache(name)
-        pre = PRE + 'Definition z : zone := %s.\n' % z.coq()
-        bad_idx, errs, _ = C.run_case_shards(PROP, label + '_' + name.replace('/', '_').replace('+', 'p'), pre,
-                                             'load_text_case', 'load_text_case_ok z',
-                                             [s for _, _, s in items], shard=25)
+        bad_idx, errs, _ = coq_results[name]
         out.corr_errors += errs
         for i in bad_idx:
             case, res, _ = items[i]
@@ -642,6 +697,7 @@ def run(ctx, out):
         ncl = 600
     out.count('FL:zones', len(plan))
     check_fl(plan, out, 'fl')
+    check_noncanonical(plan, out, rng, 3 if tier == 'quick' else 10)
     cases = [gen_cl_case(rng, zc) for _ in range(ncl)]
     check_cl(cases, out, 'cl', zc)
     out.rule = ('FL: for each zone, texts rendered from instants around transitions (+-{0,1s,1h,1d}), the local '
@@ -653,11 +709,13 @@ def run(ctx, out):
     out.samples = [dict(level='FL', zone=plan[3][0].name, texts=plan[3][1][:4])]
     out.assumptions += [
         'pytz localize (the search among the offsets in force a day before / after) is an oracle, compared on '
-        'every run with the ideal model on the sampled zones x datetimes; it is not verified',
+        'every run with the ideal model on the sampled zones x datetimes (existing, ambiguous and non-existent '
+        'local times alike); it is not verified',
         'zone tables are read from the TZif files bundled with pytz by the harness parser, as pytz reads them '
         '(32-bit block, offsets rounded to minutes); deviations of that table from the full IANA data are '
         'measured against stdlib zoneinfo and reported as pytz_table_deviation:* counts',
-        'only the canonical text form YYYY-MM-DD HH:MM:SS is modelled (strptime also accepts one-digit fields)',
+        'only the canonical text form YYYY-MM-DD HH:MM:SS is modelled (strptime also accepts one-digit fields and '
+        'runs of blanks: those spellings are compared by the oracle with the canonical spelling, not with the model)',
         'the integer-seconds ValueError of generate_timestamped_rows is unreachable for whole-second offsets '
         'and is not modelled']
 
@@ -667,5 +725,13 @@ def replay(case, out):
     zc = make_zone_cache()
     if case['level'] == 'FL':
         check_fl([(zc(case['zone']), [case['text']])], out, 'replay')
+    elif case['level'] == 'NC':
+        import pytz
+        tz = pytz.timezone(case['zone'])
+        ref, r = impl_stamp(tz, case['text']), impl_stamp(tz, case['variant'])
+        out.evaluations += 1
+        if r[0] == 'ok' and (ref[0] != 'ok' or r[1] != ref[1]):
+            out.violation('oracle', 'the spelling %r of the timestamp %r in zone %s is stored as %r, the canonical '
+                          'spelling as %r' % (case['variant'], case['text'], case['zone'], r[1], ref[1:]), case=case)
     else:
         check_cl([case['case']], out, 'replay', zc)
